@@ -111,6 +111,117 @@ def auto(case):
     return [str(table.width), _strs(table.column_widths)]
 
 
+# ------------------------------------------------------------------ direct: table_and_columns_preferred_widths
+
+def pref(case):
+    """The real table_and_columns_preferred_widths on a stub table whose cells / columns carry their min- and
+    max-content widths (exact rationals): the three content-width functions it calls are replaced for the call.
+    case: h, v (border-spacing), collapse, group (decl or None), cols [decl...] (one column group holding them),
+    rows [[{gx, span, cmin, cmax, width: decl}, ...], ...].  Returns [mins, maxs, pcts, constrainedness, ths]."""
+    from weasyprint.layout import preferred as P
+
+    def style_of(decl):
+        return {'width': _dim(decl), 'min_width': 'auto', 'max_width': 'auto'}
+
+    def content(decl):
+        return F(decl[1]) if (decl != 'auto' and decl[0] == 'px') else F(0)
+
+    table = _Hashable()
+    z = _px(0)
+    table.style = {'border_collapse': 'collapse' if case['collapse'] else 'separate',
+                   'border_spacing': (F(case['h']), F(case['v'])), 'width': 'auto', 'min_width': 'auto',
+                   'max_width': 'auto', 'margin_left': z, 'margin_right': z, 'padding_left': z, 'padding_right': z,
+                   'border_left_width': F(0), 'border_right_width': F(0)}
+    columns = []
+    for d in case['cols']:
+        c = _Hashable()
+        c.style, c.c_min, c.c_max = style_of(d), content(d), content(d)
+        columns.append(c)
+    if case['group'] is not None and columns:
+        g = _Hashable()
+        g.style, g.c_min, g.c_max = style_of(case['group']), content(case['group']), content(case['group'])
+        g.children = columns
+        table.column_groups = (g,)
+    else:
+        table.column_groups = ()
+    rows = []
+    for r in case['rows']:
+        cells = []
+        for cd in r:
+            cell = _Hashable()
+            cell.grid_x, cell.colspan, cell.rowspan = cd['gx'], cd['span'], 1
+            cell.style, cell.c_min, cell.c_max = style_of(cd['width']), F(cd['cmin']), F(cd['cmax'])
+            cells.append(cell)
+        rows.append(SimpleNamespace(children=cells))
+    table.children = [SimpleNamespace(children=rows)]
+    box = _Hashable()
+    box.style = dict(table.style)
+    box.get_wrapped_table = lambda: table
+    context = SimpleNamespace(tables={})
+    saved = (P.min_content_width, P.max_content_width, P.table_cell_min_max_content_width)
+    P.min_content_width = lambda context, b, outer=True: b.c_min
+    P.max_content_width = lambda context, b, outer=True: b.c_max
+    P.table_cell_min_max_content_width = lambda context, b, outer=True: (b.c_min, b.c_max)
+    try:
+        res = P.table_and_columns_preferred_widths(context, box, outer=False)
+    finally:
+        P.min_content_width, P.max_content_width, P.table_cell_min_max_content_width = saved
+    (tmin, tmax, mins, maxs, pcts, cons, ths, grid) = res
+    return [_strs(mins), _strs(maxs), _strs(pcts), [bool(c) for c in cons], str(ths), str(tmin), str(tmax)]
+
+
+def _pref_record(context, table, oracle):
+    """inputs of the column part of table_and_columns_preferred_widths taken from the real boxes (content widths
+    of the individual cells and columns, computed by the real functions), and its outputs."""
+    from weasyprint.layout import preferred as P
+    (tmin, tmax, mins, maxs, pcts, cons, ths, grid) = oracle
+    gw = len(grid)
+    if gw == 0:
+        return None
+    rows = [row for g in table.children for row in g.children]
+    at = {}
+    for y, row in enumerate(rows):
+        for cell in row.children:
+            at[(y, cell.grid_x)] = cell
+    groups, cols = [None] * gw, [None] * gw
+    k = 0
+    for cg in table.column_groups:
+        for col in cg.children:
+            if k < gw:
+                groups[k], cols[k] = cg, col
+            k += 1
+
+    def px(b):
+        w = b.style['width']
+        return w != 'auto' and w.unit != '%'
+
+    columns, spans, unmodelled = [], [], False
+    for i in range(gw):
+        cs = []
+        for b in (groups[i], cols[i]):
+            if b is not None:
+                cs.append([_num(P.min_content_width(context, b)), _num(P.max_content_width(context, b)),
+                           _num(P._percentage_contribution(b)), px(b)])
+        for y in range(len(rows)):
+            cell = at.get((y, i))
+            if cell is None:
+                continue
+            if cell.colspan == 1:
+                mn, mx = P.table_cell_min_max_content_width(context, cell)
+                cs.append([_num(mn), _num(mx), _num(P._percentage_contribution(cell)), px(cell)])
+            else:
+                if P._percentage_contribution(cell) != 0:
+                    unmodelled = True
+                spans.append([cell.grid_x, cell.colspan, _num(P.min_content_width(context, cell)),
+                              _num(P.max_content_width(context, cell))])
+        columns.append(cs)
+    collapse = table.style['border_collapse'] == 'collapse'
+    return dict(tid=table.element.get('id') if table.element is not None else None, unmodelled=unmodelled,
+                h=_num(0 if collapse else table.style['border_spacing'][0]),
+                v=_num(0 if collapse else table.style['border_spacing'][1]), columns=columns, spans=spans,
+                out=[[_num(x) for x in mins], [_num(x) for x in maxs], [_num(x) for x in pcts], [bool(c) for c in cons]])
+
+
 # ------------------------------------------------------------------ full renders with recording hooks
 
 def _num(x):
@@ -160,14 +271,24 @@ def render(case):
     from tests.testing_utils import render_pages
     from weasyprint.layout import table as T
     from weasyprint.formatting_structure import build as B, boxes
-    rec = {'auto': [], 'fixed': [], 'borders': [], 'tables': [], 'pages': 0}
+    rec = {'auto': [], 'fixed': [], 'borders': [], 'pref': [], 'tables': [], 'pages': 0}
+    seen_pref = set()
     orig_auto, orig_fixed, orig_collapse = T.auto_table_layout, T.fixed_table_layout, B.collapse_table_borders
 
     def auto_hook(context, box, containing_block):
         table = box.get_wrapped_table()
         r = None
         try:
-            (tmin, tmax, mins, maxs, pcts, cons, ths, grid) = T.table_and_columns_preferred_widths(context, box, outer=False)
+            oracle = T.table_and_columns_preferred_widths(context, box, outer=False)
+            (tmin, tmax, mins, maxs, pcts, cons, ths, grid) = oracle
+            if id(table) not in seen_pref:        # once per table (the result is cached in the context)
+                seen_pref.add(id(table))
+                try:
+                    pr = _pref_record(context, table, oracle)
+                    if pr is not None:
+                        rec['pref'].append(pr)
+                except Exception as exc:  # noqa
+                    rec['pref'].append(dict(hook_error=repr(exc)))
             r = dict(tid=table.element.get('id') if table.element is not None else None,
                      tw='auto' if table.width == 'auto' else _num(table.width), cb=_num(containing_block[0]),
                      ml='auto' if box.margin_left == 'auto' else _num(box.margin_left),
